@@ -409,7 +409,7 @@ def leg_a(ctx, dirs):
         replayed += replay_config(ctx, b, (False, True), dirs)
     ctx.progress('leg A (method subsets): %d configurations, %d requests replayed' % (len(cfgs), replayed))
     ncfg = len(cfgs)
-    for cfg in ctx.pick(['MC_DispatchA1.cfg'], ['MC_DispatchA1.cfg', 'MC_DispatchA.cfg']):
+    for cfg in ctx.pick(['MC_DispatchA1.cfg', 'MC_DispatchA2q.cfg'], ['MC_DispatchA1.cfg', 'MC_DispatchA.cfg']):
         ra = ctx.tlc('MC_Dispatch', cfg, workers=4, timeout=1200, count=False)
         cfgs2 = {digest([b['h'], b['sbs']]): b for b in ra.json}
         del ra
